@@ -88,6 +88,10 @@ const (
 	symLoc  = "c20-loc"
 	symHost = "c20-host-load"
 	symHLoc = "c20-hloc"
+	symSep  = "c20-sep"
+	// host builtins that call the Go entry points from wherever the call sits
+	symGoLoad    = "c20-go-load"
+	symGoLoadCtx = "c20-go-load-ctx"
 )
 
 // fileContent is what is written to disk (and into the MapFS).
